@@ -15,6 +15,30 @@ def interesting(d):
                                              "core::ops::try_trait", "core::convert::AsRef"))
 
 
+def changeable_primitives(ctx, rule):
+    """Changeable / ChangeableFn: replace stores (blocking write lock), get reads, new wraps (shared with C02: the throttle is a Changeable)"""
+    facts = ctx.facts
+    CH = "watchexec::changeable::"
+    def _f(pat):
+        return ctx.anchor_one(rule, pat, facts.fns_matching(pat))
+    rp = _f(r"^watchexec::changeable::Changeable::<T>::replace$")
+    asg = [(pathx.desc(a["a"]), pathx.desc(a["b"])) for a in thir.find(thir.root(rp), "assign")]
+    ctx.require(len(asg) == 1 and "RwLock::write(self.0)" in asg[0][0] and asg[0][1] == "new", rule, "changeable-replace-stores", "Changeable::replace stores the new value under the write lock",
+                rp.loc(rp.line), detail=str(asg), fail="Changeable::replace no longer stores the new value (%s): configuration changes are signalled but never visible" % asg)
+    gt = _f(r"^watchexec::changeable::Changeable::<T>::get$")
+    dg = pathx.desc(thir.peel(thir.root(gt)))
+    ctx.require(dg.startswith("Clone::clone(") and "RwLock::read(self.0)" in dg, rule, "changeable-get-reads", "Changeable::get returns a clone of the stored value", gt.loc(gt.line), detail=dg)
+    nw = _f(r"^watchexec::changeable::Changeable::<T>::new$")
+    ctx.require(pathx.desc(thir.peel(thir.root(nw))) == "Changeable{0: Arc::new(RwLock::new(value))}", rule, "changeable-new", "Changeable::new wraps the given value", nw.loc(nw.line))
+    fr = _f(r"^watchexec::changeable::ChangeableFn::<T, U>::replace$")
+    rc = [[pathx.desc(a) for a in nd["a"]] for c, nd in thir.calls_in(thir.root(fr)) if strip_generics(c).endswith("Changeable::replace")]
+    ctx.require(rc == [["self.0", "Arc::new(new)"]], rule, "changeablefn-replace-stores", "ChangeableFn::replace stores the new handler", fr.loc(fr.line), detail=str(rc),
+                fail="ChangeableFn::replace does not store the new handler (%s): on_action / on_error / filterer replacements have no effect" % rc)
+    fnw = _f(r"^watchexec::changeable::ChangeableFn::<T, U>::new$")
+    ctx.require(pathx.desc(thir.peel(thir.root(fnw))) == "ChangeableFn{0: Changeable::new(Arc::new(f))}", rule, "changeablefn-new", "ChangeableFn::new wraps the given handler", fnw.loc(fnw.line))
+
+
+
 def run(ctx):
     ctx.level = "other"
     facts = ctx.facts
@@ -298,26 +322,9 @@ def run(ctx):
 
     lock_scope(ctx, "R13.5")
 
-    # ---- R13.6b the Changeable primitives every setter and every reader goes through
+    # ---- R13.6b
     try:
-        CH = "watchexec::changeable::"
-        def _f(pat):
-            return ctx.anchor_one("R13.6", pat, facts.fns_matching(pat))
-        rp = _f(r"^watchexec::changeable::Changeable::<T>::replace$")
-        asg = [(pathx.desc(a["a"]), pathx.desc(a["b"])) for a in thir.find(thir.root(rp), "assign")]
-        ctx.require(len(asg) == 1 and "RwLock::write(self.0)" in asg[0][0] and asg[0][1] == "new", "R13.6", "changeable-replace-stores", "Changeable::replace stores the new value under the write lock",
-                    rp.loc(rp.line), detail=str(asg), fail="Changeable::replace no longer stores the new value (%s): configuration changes are signalled but never visible" % asg)
-        gt = _f(r"^watchexec::changeable::Changeable::<T>::get$")
-        dg = pathx.desc(thir.peel(thir.root(gt)))
-        ctx.require(dg.startswith("Clone::clone(") and "RwLock::read(self.0)" in dg, "R13.6", "changeable-get-reads", "Changeable::get returns a clone of the stored value", gt.loc(gt.line), detail=dg)
-        nw = _f(r"^watchexec::changeable::Changeable::<T>::new$")
-        ctx.require(pathx.desc(thir.peel(thir.root(nw))) == "Changeable{0: Arc::new(RwLock::new(value))}", "R13.6", "changeable-new", "Changeable::new wraps the given value", nw.loc(nw.line))
-        fr = _f(r"^watchexec::changeable::ChangeableFn::<T, U>::replace$")
-        rc = [[pathx.desc(a) for a in nd["a"]] for c, nd in thir.calls_in(thir.root(fr)) if strip_generics(c).endswith("Changeable::replace")]
-        ctx.require(rc == [["self.0", "Arc::new(new)"]], "R13.6", "changeablefn-replace-stores", "ChangeableFn::replace stores the new handler", fr.loc(fr.line), detail=str(rc),
-                    fail="ChangeableFn::replace does not store the new handler (%s): on_action / on_error / filterer replacements have no effect" % rc)
-        fnw = _f(r"^watchexec::changeable::ChangeableFn::<T, U>::new$")
-        ctx.require(pathx.desc(thir.peel(thir.root(fnw))) == "ChangeableFn{0: Changeable::new(Arc::new(f))}", "R13.6", "changeablefn-new", "ChangeableFn::new wraps the given handler", fnw.loc(fnw.line))
+        changeable_primitives(ctx, "R13.6")
     except Skip:
         pass
 
